@@ -109,9 +109,54 @@ def gen_quad_product(rng):
     return {"op": "tree", "spin": fam is SPIN, "tree": tree}
 
 
+def gen_cancel(rng):
+    """exact cancellation through other spellings of the same monomials: the second operand repeats terms of the first with
+    their labels permuted, doubled (x*x = x) or, for spins, multiplied by the square of a label the model does not contain
+    (z*z = 1); every spelling must reach the stored term, so the difference loses those terms"""
+    fam = rng.choice([BOOL, SPIN, SPIN])
+    kind = rng.choice([k for k in fam if k not in QUAD])
+    uni = 'int' if kind.endswith("Matrix") else rng.choice(['int', 'pool'])
+    pool = G.labels(rng, uni, 5)
+    labs, fresh = pool[:3], pool[3:]
+    ts, seen = [], set()
+    for _ in range(rng.randint(1, 3)):
+        k = tuple(rng.sample(labs, rng.randint(1, 3)))
+        ks = tuple(sorted(k, key=C.enc))
+        if ks not in seen:
+            seen.add(ks)
+            ts.append((k, G.coef(rng)))
+    other = []
+    for k, v in ts:
+        if rng.random() < 0.8:
+            k2 = list(k)
+            rng.shuffle(k2)
+            if fam is SPIN:
+                f = rng.choice(fresh)
+                pos_ = rng.randint(0, len(k2))
+                k2[pos_:pos_] = [f, f]
+            else:
+                k2.append(rng.choice(k2))
+            other.append((tuple(k2), v))
+    a = {"t": "model", "kind": kind, "terms": G.jraw(ts)}
+    b = {"t": "raw", "terms": G.jraw(other)} if rng.random() < 0.7 else {"t": "model", "kind": kind, "terms": G.jraw(other)}
+    r = rng.random()
+    if r < 0.4:
+        tree = {"t": "bin", "ip": True, "op": "sub", "a": a, "b": b}
+    elif r < 0.7:
+        tree = {"t": "bin", "ip": False, "op": "sub", "a": a, "b": b}
+    elif r < 0.85:
+        tree = {"t": "bin", "ip": False, "op": "sub", "a": b, "b": a}
+    else:
+        nb = {"t": "neg", "a": b} if b["t"] == "model" else {"t": "raw", "terms": G.jraw([(k, -v) for k, v in other])}
+        tree = {"t": "bin", "ip": rng.random() < 0.5, "op": "add", "a": a, "b": nb}
+    return {"op": "tree", "spin": fam is SPIN, "tree": tree}
+
+
 def gen(rng, i, tier):
     if rng.random() < 0.08:
         return gen_quad_product(rng)
+    if rng.random() < 0.07:
+        return gen_cancel(rng)
     if rng.random() < 0.78:
         fam = rng.choice([BOOL, SPIN])
         uni = rng.choice(['int', 'pool'])
